@@ -45,7 +45,7 @@ func progs(ops string, maxLen int) []string {
 func inContract(cfg []string) bool {
 	n := 0
 	for _, p := range cfg {
-		if strings.ContainsAny(p, "RMC") {
+		if strings.ContainsAny(p, "RMNC") {
 			n++
 		}
 	}
@@ -92,7 +92,7 @@ func c09(deadline time.Time) (int, int) {
 	dir, _ := os.MkdirTemp("", "c09race-")
 	defer os.RemoveAll(dir)
 	os.WriteFile(filepath.Join(dir, "tiny.py"), []byte("x = 1\n"), 0o644)
-	ps := progs("RXMCW", 2)
+	ps := progs("RXMNCW", 2)
 	var cfgs [][]string
 	for i := range ps {
 		for j := i; j < len(ps); j++ {
@@ -132,6 +132,9 @@ func c09(deadline time.Time) (int, int) {
 						case 'M':
 							impl := &py.ModuleImpl{Info: py.ModuleInfo{Name: fmt.Sprintf("m%d_%d", ti, oi)}, Globals: py.StringDict{}, Code: code,
 								OnContextClosed: func(*py.Module) {}}
+							ctx.ModuleInit(impl)
+						case 'N':
+							impl := &py.ModuleImpl{Info: py.ModuleInfo{Name: fmt.Sprintf("n%d_%d", ti, oi)}, Globals: py.StringDict{}, OnContextClosed: func(*py.Module) {}}
 							ctx.ModuleInit(impl)
 						case 'C':
 							ctx.ResolveAndCompile("tiny.py", py.CompileOpts{CurDir: dir})
